@@ -715,6 +715,24 @@ def r7_field_plumbing(ctx: Ctx) -> None:
         if tag == "indexed":
             ctx.check(kw.get("index") == "node.index", "generate_opcode[indexed]:index", f"index={kw.get('index')}")
     ctx.check(any("index" in {k.arg for k in c.keywords} for c in ctors), "generate_opcode:passes-index", "some construction passes the index register")
+    # whatever the addressing mode, the statement becomes exactly one OpcodeNode in the returned list
+    from ..cfg import ENTRY as _EN, EXIT as _EX
+
+    ggo = CFG(go.node)
+    app_nodes = []
+    for c in calls_in(go.node):
+        if isinstance(c.func, ast.Attribute) and c.func.attr == "append" and c.args and any(x in ctors for x in ast.walk(c.args[0])):
+            app_nodes.append(ggo.node_containing(c))
+    lit_rets = [r for r in walk_no_nested(go.node) if isinstance(r, ast.Return) and r.value is not None and any(x in ctors for x in ast.walk(r.value))]
+    app_nodes += [ggo.node_of(r) for r in lit_rets]
+    if not app_nodes:
+        raise AnalysisError("generate_opcode: no OpcodeNode is appended / returned")
+    rets_ = [ggo.node_of(r) for r in walk_no_nested(go.node) if isinstance(r, ast.Return)]
+    missing = [r for r in rets_ if r not in app_nodes and not ggo.every_path_passes(_EN, r, app_nodes, labels_excluded=["exc"])]
+    ctx.check(not missing, "generate_opcode:one-node-per-statement", "on every path to the return an OpcodeNode was appended: an addressing-mode arm without one drops the instruction "
+              "(implied instructions such as `nop` would emit nothing)")
+    twice = [a for a in app_nodes if any(b != a and b in ggo.reachable([m for m, _l in ggo.succ[a]], labels_excluded=["exc"]) for b in app_nodes)]
+    ctx.check(not twice, "generate_opcode:one-node-per-statement:once", "no path appends two nodes for one statement")
     on = ctx.repo.func(NODES, "OpcodeNode.__init__")
     st = {unparse(n.targets[0]): unparse(n.value) for n in walk_no_nested(on.node) if isinstance(n, ast.Assign)}
     for f in ("addressing_mode", "index", "value_node", "size"):
